@@ -82,6 +82,8 @@ func TestPlan(t *testing.T) {
 		total := enumSeqTotal(enumMaxLen()) * uint64(len(enumProgs))
 		per := total/48 + 1
 		p.Shards = append(p.Shards, ev.RangeShards("enum", "^TestCacheEnum$", total, per, env)...)
+		nt := uint64(len(templateCases()))
+		p.Shards = append(p.Shards, ev.RangeShards("templates", "^TestCacheTemplates$", nt, nt/16+1, env)...)
 	case "C03":
 		total := graphEnumTotal()
 		p.Shards = append(p.Shards, ev.RangeShards("enum", "^TestGraphEnum$", total, total/32+1, env)...)
